@@ -32,3 +32,11 @@ reg("C07", "runtime monitoring: interpolation oracle over four ways of setting t
 reg("C08", "runtime monitoring with schedule control: tf.random.uniform replaced by a controlled stream (equidistributed grid + seeded real draws); adjacency/unbiasedness/fixed-point oracles; inference equality",
     "All stochastic configurations (fixed point, ReLU incl. leaky, tanh, sigmoid, po2, relu_po2, binary, ternary, stochastic_binary/ternary) x ranks 1..3: every draw yields a representable code adjacent to the clipped input, the mean over K equidistributed draws equals the input to 1/K step (|x| for po2), codes are fixed points, and with the learning phase off outputs are bit-identical to the deterministic twin and repeatable.",
     "Unbiasedness is decided for the library's use of the uniform stream, not for TF's generator; binary/ternary only membership + inference equality.", "5/C08")
+
+reg("C09", "runtime monitoring: three real rebuild routes per instance of the option lattice, functional comparison (outputs + scale) under a pinned RNG stream, registry lookups",
+    "Every registered quantizer class x default / each single option / every pair of options (thorough: random cross products) is rebuilt through from_config(get_config()), get_quantizer on the JSON round-tripped serialized dict and the framework's deserialize with the library's custom objects; the rebuilt object must reproduce outputs and scale bit-for-bit on six probe tensors; lost options are identified by diffing constructor attributes.",
+    "Options that cannot change forward outputs (var_name, use_variables, use_ste) are observed only.", "5/C09")
+
+reg("C10", "runtime monitoring: differential of the real parser against ast.literal_eval with a recording stub, execution monitor (sys.addaudithook + file canary) on hostile strings, str()->get_quantizer functional round trip over the option lattice",
+    "A: 16k generated call strings over the literal grammar (random whitespace, positional/keyword mixes, one separator-carrying literal at most) must give the stub exactly Python's args/kwargs (value and type); misordered calls must raise SyntaxError; lattice options written as Python calls must build the same object for all 14 classes; 20 payload families are parsed under an audit hook with a positive control. B: str(q) of every lattice instance must re-parse to a functionally equal quantizer; consumers' strings likewise.",
+    "Audit hooks see CPython-level events only; tuples/hex/underscore ints are outside the statement.", "5/C10")
